@@ -1,2 +1,3 @@
 pub mod fft;
 pub mod kzg;
+pub mod sat;
